@@ -1,13 +1,16 @@
 /- Line-protocol driver: one op per line in (TAB-separated fields), one
    canonical line out.  Imports Model/ and Gen/ only (core Lean). -/
-import LedgerModel.Model.ValueProto
+import LedgerModel.Registry
 
 open Ledger
 
 def dispatch (line : String) : String :=
   match line.splitOn "\t" with
-  | "val.rpn" :: args => opValRpn args
-  | _ => "err\tbad-op"
+  | op :: args =>
+    match allOps.find? (fun kv => kv.1 = op) with
+    | some kv => kv.2 args
+    | none => "err\tbad-op"
+  | [] => "err\tbad-op"
 
 partial def loop (h : IO.FS.Stream) (out : IO.FS.Stream) : IO Unit := do
   let line ← h.getLine
